@@ -446,6 +446,8 @@ fn parse_case(c: &[u64]) -> Option<(bool, u64, u64, Vec<Vec<u64>>)> {
 }
 
 struct Gen {
+    /// scripted ops played first (directed scenarios: both connections of a peer, promotion)
+    script: Vec<Vec<u64>>,
     rng: Rng,
     timed: bool,
     third: bool,
@@ -457,6 +459,15 @@ struct Gen {
 
 impl Gen {
     fn next(&mut self, w: &mut World) -> Vec<u64> {
+        if !self.script.is_empty() {
+            let op = self.script.remove(0);
+            self.elapsed += op[0];
+            match op[1] {
+                1 => w.next_conn = w.next_conn.max(op[3] + 1),
+                _ => {}
+            }
+            return op;
+        }
         let r = &mut self.rng;
         let dt = if self.timed && self.elapsed < 3000 { r.pick(&[0u64, 0, 200, 200, 200, 400, 600]) } else { 0 };
         self.elapsed += dt;
@@ -666,7 +677,24 @@ fn gen_one(rt: &tokio::runtime::Runtime, mut rng: Rng, timed: bool, thorough: bo
     let garbage = !timed && rng.chance(8);
     let nops = if timed { rng.range(6, 14) } else if thorough { rng.range(10, 120) } else { rng.range(8, 60) } as usize;
     let npeers = rng.range(1, 3);
-    let g = Gen { rng: rng.fork(), timed, third, garbage, npeers, nops, elapsed: 0 };
+    // a third of the timed cases start with two overlapping connections of peer 0, some activity on
+    // one of them, and the primary closing first (promotion of the secondary)
+    let mut script: Vec<Vec<u64>> = Vec::new();
+    if timed && rng.chance(35) {
+        script.push(vec![0, 1, 0, 1]);
+        script.push(vec![rng.pick(&[0u64, 200]), 1, 0, 2]);
+        match rng.below(3) {
+            0 => script.push(vec![rng.pick(&[0u64, 200]), 3, 0, 2, 1]),
+            1 => script.push(vec![rng.pick(&[0u64, 200]), 7, 0]),
+            _ => {}
+        }
+        script.push(vec![rng.pick(&[0u64, 200, 200]), 2, 0, 1]);
+        if rng.chance(50) {
+            script.push(vec![rng.pick(&[0u64, 200]), 7, 0]);
+        }
+    }
+    let nops = nops.max(script.len() + 3);
+    let g = Gen { script, rng: rng.fork(), timed, third, garbage, npeers, nops, elapsed: 0 };
     let (case, trace, ok) = rt.block_on(tokio::task::unconstrained(exec(ka, t_ms, n0, Src::Gen(g))));
     if ok {
         return (case, trace);
